@@ -184,8 +184,10 @@ where
     }
 
     fn early_exit(&self) {
-        self.counter().store(usize::MAX);
+        // `completed` must be set first: as soon as the reserved counter is overwritten, the tickets start over,
+        // and a new ticket might equal the yielded count while its legitimate holder is still using the iterator
         self.completed.store(true, atomic::Ordering::SeqCst);
+        self.counter().store(usize::MAX);
     }
 }
 
